@@ -209,6 +209,10 @@ func genMixedLists(t *rapid.T, fileChance int) (lists []ListSpec, models []NetMo
 		for _, c := range "abcd" {
 			lines = append(lines, fmt.Sprintf("/uniq%d%c[0-9]/", k, c))
 		}
+		if chance(t, "same-regex-two-rules", 2) {
+			// one expression in two rules that no single request reaches both, only one of them case-sensitive
+			lines = append(lines, fmt.Sprintf("/Uniq%dp[0-9]/$image", k), fmt.Sprintf("/Uniq%dp[0-9]/$script,match-case", k))
+		}
 	}
 	if chance(t, "bucket-sharing-block", 2) {
 		// several rules in one shortcut bucket, and rules in other buckets that the same URLs reach later
